@@ -19,13 +19,22 @@ from .common import log
 from .ref import Model, Unsupported
 
 
-def _expensive(mdl: Model, root) -> bool:
+def _expensive(mdl: Model, root, depth=0) -> bool:
     """arrays of dynamically sized elements multiply paths with every element"""
-    from .ref import ArraySeg
+    from .ref import ArraySeg, StructSeg, OptSeg
+    if depth > 6:
+        return False
     for t in [root] + mdl.descendants(root):
         for seg in mdl.plans[t]:
-            if isinstance(seg, ArraySeg) and seg.elem_static is None:
-                return True
+            if isinstance(seg, ArraySeg):
+                if seg.elem_static is None:
+                    return True
+            elif isinstance(seg, StructSeg):
+                if _expensive(mdl, seg.decl, depth + 1):
+                    return True
+            elif isinstance(seg, OptSeg) and seg.inner[0] == 'struct':
+                if _expensive(mdl, seg.inner[1], depth + 1):
+                    return True
     return False
 
 
